@@ -160,3 +160,44 @@ def repeated_calls_depend_only_on_the_current_hyperparameters(h, key, n, d):
         K.pass_spatial_data(X)
         h.eq("first data set again: build_covariance", K.build_covariance(t), gc.ref_call(h, spec, X, X, new, same_points=True))
         h.eq("caller's data array unchanged", X, X0)
+
+
+@unit("C10", quick=[dict(key=k, n=2, d=1) for k in ("SE+WN", "SE+RQ", "CP2", "CP3")] + [dict(key="SE+RQ", n=2, d=2)],
+      thorough=[dict(key=k, n=3, d=1) for k in ("SE+SE+WN", "CP(SE,RQ)", "CP4")], max_paths=3000, cost=4)
+def composite_bounds_are_component_bounds_in_order(h, key, n, d):
+    """estimate_hyperpar_bounds on a sum / change-point combination: the composite's bounds are the bounds each component
+    estimates on its own from the same data, concatenated in component order (change-points: followed by one
+    (location, width) pair of bounds per change-point, locations within the data range, widths positive), one pair of
+    bounds per hyper-parameter, lower <= upper"""
+    cv, spec, K, X, th = _setup(h, key, n, d)
+    y = h.real("y", n)
+    for a, b in zip(y[:-1], y[1:]):
+        h.assume(a < b, "distinct data values (the estimated bounds take logs of their spread)")
+    for i in range(n - 1):
+        for k in range(d):
+            h.assume(X[i, k] < X[i + 1, k], "distinct coordinates in ascending order in every dimension")
+    dt = object if h.sym else float
+    K.estimate_hyperpar_bounds(np.array(y, dtype=dt))
+    kind, parts = spec
+    expect = []
+    for p in parts:
+        C = gc.build_kernel(cv, p)
+        C.pass_spatial_data(X)
+        C.estimate_hyperpar_bounds(np.array(y, dtype=dt))
+        expect.extend(list(C.bounds))
+    got = list(K.bounds)
+    h.same("one (lower, upper) pair per hyper-parameter", len(got), K.n_params)
+    m = len(expect)
+    h.eq("component bounds concatenated in component order", np.array([[b[0], b[1]] for b in got[:m]], dtype=dt), np.array([[b[0], b[1]] for b in expect], dtype=dt))
+    if kind == "cp":
+        rest = got[m:]
+        h.same("one (location, width) pair of bounds per change-point", len(rest), 2 * (len(parts) - 1))
+        xs = X[:, 0]
+        for i in range(0, len(rest), 2):
+            loc, wid = rest[i], rest[i + 1]
+            h.ge(f"change-point {i // 2}: location bounds inside the data range (lower)", loc[0], xs[0])
+            h.le(f"change-point {i // 2}: location bounds inside the data range (upper)", loc[1], xs[-1])
+            h.ge(f"change-point {i // 2}: width bounds positive", wid[0], 0.0, strict=True)
+            h.le(f"change-point {i // 2}: width bounds ordered", wid[0], wid[1])
+    for k, b in enumerate(got):
+        h.le(f"bounds[{k}]: lower <= upper", b[0], b[1])
